@@ -57,6 +57,10 @@ type Observation struct {
 	// different multiset than the first one (they are two samples of the same thing).
 	IntraDiags string `json:"intra_diags,omitempty"`
 	IntraNotes string `json:"intra_notes,omitempty"`
+	// SyntaxFirst / SyntaxSecond: the sorted syntax errors of the first and of the second analysis of
+	// the repetition (Syntax is their union as a multiset); they must agree with each other.
+	SyntaxFirst  string `json:"syntax_first,omitempty"`
+	SyntaxSecond string `json:"syntax_second,omitempty"`
 	// Steps executed by the VM plus the interpreter (to scale the number of repetitions; exact
 	// only for a repetition that ran on its own).
 	Steps int64 `json:"steps"`
@@ -170,13 +174,19 @@ func prepare(src drive.Sources, o ObsOpts) *prepared {
 	a2 := analyze(src, o.Templates)
 	ob.Modules = len(a2.Modules)
 	var syn []string
-	for _, a := range []drive.AnalyzeOut{a1, a2} {
+	var synOf [2]string
+	for i, a := range []drive.AnalyzeOut{a1, a2} {
+		var own []string
 		for _, s := range a.Syntax {
-			syn = append(syn, fmt.Sprintf("%d|%s|%s", s.Kind, s.Message, spanStr(s.Span)))
+			own = append(own, fmt.Sprintf("%d|%s|%s", s.Kind, s.Message, spanStr(s.Span)))
 		}
+		sort.Strings(own)
+		synOf[i] = strings.Join(own, "\n")
+		syn = append(syn, own...)
 	}
 	sort.Strings(syn)
 	ob.Syntax = strings.Join(syn, "\n")
+	ob.SyntaxFirst, ob.SyntaxSecond = synOf[0], synOf[1]
 	ob.Diags = strings.Join(diagLines(a1.Diags, false), "\n")
 	ob.Notes = strings.Join(diagLines(a1.Diags, true), "\n")
 	// the two analyses are two samples of the same thing: they must agree with each other too
